@@ -13,7 +13,11 @@ from .. import leanproj, pipeline, corr
 from ..common import Rng, seed
 from ..corr import build_model
 
-HEAD = 'Binde "Duden/Ausgabe" ein.\n'
+HEAD = ('Binde "Duden/Ausgabe" ein.\nWir nennen eine Zahl auch eine Ganzzahl.\nWir nennen einen Text auch einen Absatz.\n'
+        'Wir nennen eine Kommazahl auch eine Fliesszahl.\n')
+# a parameter may be declared with an alias of its type: the alias is the type (arguments of the type — literals, variables,
+# computed values — fit it exactly as they fit the type itself)
+ALIAS_NAME = {"Z": "Ganzzahl", "T": "Absatz", "K": "Fliesszahl"}
 TYPES = {"Z": ("Zahl", "Zahlen Referenz"), "T": ("Text", "Text Referenz"), "K": ("Kommazahl", "Kommazahlen Referenz"), "G": ("T", "T Referenz")}
 WORDS = ["laut", "leise", "bitte", "sofort"]
 VARS = {"Z": ("zv", "41"), "T": ("tv", "vt"), "K": ("kv", "2.5")}       # variable name, printed value
@@ -43,7 +47,7 @@ class Fn:
     def source(self):
         generic = any(t == "G" for _, t, _ in self.params)
         names = [n for n, _, _ in self.params]
-        tys = [TYPES[t][1 if r else 0] for _, t, r in self.params]
+        tys = [ALIAS_NAME[t] if (not r and t in ALIAS_NAME and (self.idx + i) % 3 == 1) else TYPES[t][1 if r else 0] for i, (_, t, r) in enumerate(self.params)]
         s = "Die %sFunktion fn%d" % ("generische " if generic else "", self.idx)
         if len(names) == 1:
             s += " mit dem Parameter %s vom Typ %s," % (names[0], tys[0])
